@@ -87,10 +87,13 @@ def do_run(mod, args, seed, t0, harness):
     tier = args.tier
     known = harness.KnownFindings(prop)
     subs = [s for s in mod.SUBCHECKS if not args.only or s.name in args.only]
-    if args.scale != 1:
-        for s in subs:
-            s.quick = int(s.quick * args.scale)
-            s.thorough = int(s.thorough * args.scale)
+    # quick budgets were sized while the machine was heavily loaded; on an idle 16-core machine every property finishes
+    # in 5-25 s, so the quick tier runs twice the per-sub-check budget (C07/C08, the slowest, keep theirs): still
+    # well under a minute each
+    qscale = args.scale * (1 if prop in ("C07", "C08") else 2)
+    for s in subs:
+        s.quick = int(s.quick * qscale)
+        s.thorough = int(s.thorough * args.scale)
 
     violations = []
     per_sub = {}
